@@ -1105,6 +1105,20 @@ def _(m):
     patch_method(m["Fiber"], "splitUniform", "            if relativeCoords:\n                # The active range is expressed in the coordinates of the fiber it describes\n                range_start -= part\n                range_end -= part\n", "")
 
 
+@mutant("c15_dense_walk_ends_its_iteration_when_dropped", "C15")
+def _(m):
+    # round 11 (C16-Y): the walk's clean-up moved into a finally - it now also runs when a suspended walk of an EARLIER
+    # session is dropped in the middle of a later one
+    patch_modfunc(m["iterators"], "iterRangeShape",
+                  "    for c in range(start, end, step):\n        p = self.getPayload(c)\n        yield CoordPayload(c, p)\n\n"
+                  "        if is_collecting and tick:\n            Metrics.incIter(rank)\n\n"
+                  "    if is_collecting and tick:\n        Metrics.endIter(rank)",
+                  "    try:\n        for c in range(start, end, step):\n            p = self.getPayload(c)\n            yield CoordPayload(c, p)\n\n"
+                  "            if is_collecting and tick:\n                Metrics.incIter(rank)\n\n"
+                  "    finally:\n        if is_collecting and tick and Metrics.isCollecting():\n            Metrics.endIter(rank)",
+                  also=(m["Fiber"],))
+
+
 def apply(name):
     if name not in MUTANTS:
         raise SystemExit(f"unknown mutant {name}; known: {sorted(MUTANTS)}")
